@@ -209,6 +209,10 @@ class SchedulerConfig:
         item_conf = self.default.copy()
         for key in keys:
             item_conf.update(self.routines[key])
+        if self.disable and any('disable' in self.routines[key] for key in keys):
+            # Globally disabled entries are never added to the dependency graph and can
+            # not be re-enabled by an item-specific disable list
+            item_conf['disable'] = tuple(dict.fromkeys(as_tuple(item_conf['disable']) + self.disable))
         return item_conf
 
     def create_frontend_args(self, path, default_args):
